@@ -924,7 +924,7 @@ CONFIG["C13"] = dict(
 
 CONFIG["C12"] = dict(
     modules=["Mdns.Props.C12"],
-    model_files="Mdns/Model/Sched.lean",
+    model_files="Mdns/Model/Sched.lean, Mdns/Model/Client.lean",
     nontrivial=_sim_nontrivial,
     extra_evidence=_sim_extra,
     rule="(a) responder-free histories as in C19/C13: the model's requested wake-up is compared with the real daemon's at "
@@ -940,19 +940,27 @@ CONFIG["C12"] = dict(
                "model: every queued retransmission and resolver deadline has a timer no later than its due time, the "
                "requested wake-up is the minimum of the timers, passed timers are consumed, and the interface check never "
                "re-arms at `now` (interval 0 = disabled) - Lean theorems; the model's wake-up equals the real one on every "
-               "iteration of the responder-free histories.",
+               "iteration of the responder-free histories. On the CLIENT model (Client.iter, whose wake-up is compared with the real daemon's at every iteration of every "
+               "client history): the invariant TimersCover - for EVERY cached entry the expiry instant and the refresh mark (while "
+               "before the expiry) is a timer, every queued re-run (browse / resolve_hostname retransmission, follow-up resolve, "
+               "verify resend), every hostname-search deadline and the interface check has a timer - is preserved by iter for every "
+               "input (timersCover_iter), holds after every history from the fresh daemon (timersCover_always), hence "
+               "wake_never_late(_run): the requested wake-up is no later than any due work after the last iteration; "
+               "expiry_after_last, old_timers_popped; hfound_on_time (an iteration not later than the requested wake-up reports no "
+               "address whose record ran out before now).",
     level_note="Trusted: Lean kernel; allowed axioms only; simulation seams (the gate replaces the blocking poll, so the 1 ms "
                "floor of the real poll time-out is not exercised). The two-scheduler comparison is an oracle on the real "
                "code, not a theorem; probe steps, announcement repeats, refreshes, expiries and verify deadlines are covered "
                "by it, not yet by the model.",
-    partial=["wake_sound is proved for the scheduler fragment (retransmissions, resolver deadlines, interface check); probing, "
-             "record refresh/expiry and verify timers are checked by the two-scheduler oracle only"],
+    partial=["probing / announcement timers of the responder side are not in the client model (two-scheduler oracle and the "
+             "responder model's own theorems); a no-spin bound for the client model (refresh marks being caught up on a late "
+             "iteration) is not proved, the scheduler-fragment statements are"],
     assumptions=["one `now` per loop iteration", "hash-order dependent tie-breaks may make the two executions diverge; packet content is compared canonically (sorted, without TTLs)"],
 )
 
 CONFIG["C17"] = dict(
     modules=["Mdns.Props.C17"],
-    model_files="Mdns/Model/Sched.lean, Mdns/Model/Cache.lean",
+    model_files="Mdns/Model/Client.lean, Mdns/Model/Sched.lean, Mdns/Model/Cache.lean",
     nontrivial=_sim_nontrivial,
     extra_evidence=_sim_extra,
     rule="histories on real daemon threads under the simulation seams, from VERIF_SEED (harness/src/c17.rs, scen.rs): three "
@@ -960,24 +968,30 @@ CONFIG["C17"] = dict(
          "TTLs 1..4500 s, cache-flush updates, goodbyes, letter-case variants of the host name on the caller and responder "
          "side, time-outs 1.5 s..200 s, verify requests), one quarter with real responder daemons (register / unregister / "
          "shutdown). Non-trivial = at least one packet and one client event. Distinct = distinct scripts.",
-    level_text="The monitor ok_C17 decides on every real history: each AddressesFound lists only addresses with a delivered, "
-               "still usable A/AAAA record for that host name (letter case ignored), tagged with the interface they arrived on; "
-               "each AddressesRemoved lists only addresses of which some record has run out; SearchStarted first, SearchTimeout "
-               "then SearchStopped at the deadline, no query afterwards (shared with C13); the A+AAAA back-off is C19's. Lean "
-               "theorems on the scheduler model: keyed by the lower-cased name (stop and time-out independent of letter case), "
-               "A and AAAA at once, no retransmission beyond the deadline, time-out contract; on the cache model: look-ups by "
-               "lower-cased name. Responder-free histories are predicted exactly by the scheduler model.",
+    level_text="On the client model (Client.iter, compared with the real daemon per iteration): hfound_sound / hremoved_sound over "
+               "whole histories from the fresh daemon, in terms of delivered records (each listed address from a delivered A/AAAA "
+               "record of exactly that owner name, on the interface it arrived on, for a resolve_hostname call on that channel, "
+               "letter case ignored; lifetime not over at the previous iteration / record ran out in this very iteration); "
+               "hfound_lists_all, hremoved_exact (cache-level exactness); hfound_complete(_first) (a new or revived address of a "
+               "searched host in a packet taken in is reported in that handle_response); resolve_starts_client, "
+               "resolve_first_rerun, resolve_rerun_open/closed, timeout_contract_client, timeout_only_when_due (A+AAAA at once, "
+               "doubling, cut at the deadline, SearchTimeout then SearchStopped); refresh_while_open, refresh_timer_armed. "
+               "'Unexpired at the instant of the event' is refuted on a late iteration (hfound_unexpired_full_false, witness "
+               "lateHistory). The monitor ok_C17 decides the same clauses on every real history from the delivered records; the "
+               "older theorems on the scheduler fragment are kept.",
     level_note="Trusted: Lean kernel; allowed axioms only; simulation seams; the address-event clauses are decided by an oracle "
                "computed from the delivered records (record identity includes the cache-flush bit, as in the daemon), not by a "
                "model prediction; the exact expiry millisecond of an address in AddressesFound is left open (statement masks it).",
-    partial=["address events (found/removed) have no model-level theorem yet: the client-side daemon model is under construction",
-             "refresh of addresses at 80 % is covered at record level by C11 (resolution_refresh_once), not observed here as a clause"],
+    partial=["hfound_unexpired_full is false of the model: get_addresses_for_host does not look at expiry times, so on a late iteration "
+             "(handle_response runs before the eviction of the same iteration) an address whose record ran out is still listed; "
+             "what holds without a timeliness assumption is hfound_sound (not over at the previous iteration)",
+             "completeness is a step contract (per handle_response), not an invariant over histories"],
     assumptions=["event receivers stay alive", "histories with verify requests are not judged for AddressesRemoved (verify shortens lifetimes)"],
 )
 
 CONFIG["C20"] = dict(
     modules=["Mdns.Props.C20"],
-    model_files="Mdns/Model/Cache.lean, Mdns/Model/Sched.lean",
+    model_files="Mdns/Model/Client.lean, Mdns/Model/Cache.lean, Mdns/Model/Sched.lean",
     nontrivial=_sim_nontrivial,
     extra_evidence=_sim_extra,
     rule="client histories with a scripted responder (harness/src/c17.rs generate_c20): announcements, partial record sets "
@@ -985,17 +999,22 @@ CONFIG["C20"] = dict(
          "started and stopped, get_metrics readings along the way and after tails of 20 s .. 5000 s (beyond every TTL and "
          "beyond the one-hour life of a cancelled retransmission timer). Non-trivial = at least one packet and one client "
          "event. Distinct = distinct scripts.",
-    level_text="`drained` (after every cached record has expired one eviction pass leaves all five cache tables empty, including "
-               "records no PTR points to - the repair of D19), `evict_only_removes`, `idle_arms_nothing` are Lean theorems on "
-               "the cache / scheduler models (the cache model is compared with the real DnsCache op by op in C11). The monitor "
-               "ok_C20 reads the daemon's own metrics on real histories: no cached record and at most the interface-check timer "
-               "once every TTL has passed and all searches ended; at every reading, no more cached records than the usable "
-               "delivered records some search of the history needs.",
+    level_text="On the client model (Client.iter, compared with the real daemon per iteration incl. the metrics), whole histories "
+               "from the fresh daemon: cache_bounded (every cached entry is the copy of a delivered record whose lifetime was not "
+               "over at the last iteration, filed under its own name), drained_cache (once the lifetime of every delivered record "
+               "is over an iteration leaves all five tables empty, counters 0 - searches open or not), timers_bounded (every "
+               "pending timer is the interface check or lies within the horizon of the history: last iteration + 1 h, end of a "
+               "delivered lifetime, a deadline given with resolve_hostname / verify), drained_run (nothing browsed, nothing "
+               "queued, then any input-free iterations: the first iteration at or after the horizon leaves an empty cache and no "
+               "timer but the interface check), quiet_iter. On the cache model: drained, evict_only_removes; scheduler fragment: "
+               "idle_arms_nothing. The monitor ok_C20 reads the daemon's own metrics on real histories.",
     level_note="Trusted: Lean kernel; allowed axioms only; simulation seams; the daemon-level clauses are decided by the monitor "
                "on metrics, not by a model prediction. Keys left empty in the maps of records the cache declines are not visible "
                "in the metrics and not judged.",
-    partial=["`bounded` (size <= f(active searches)) is monitor-only; the acceptance rule for PTR-less packets makes it false of the "
-             "code (known finding D25)"],
+    partial=["`bounded` by what the active searches NEED is monitor-only; the acceptance rule for PTR-less packets makes it false of "
+             "the code (known finding D25); cache_bounded bounds the cache by what was DELIVERED and is still live",
+             "the size corollary (number of entries <= number of distinct live delivered records) is not proved (needs the "
+             "uniqueness invariant of the cache lists); the `subtype` map is never pruned (not a table of records)"],
     assumptions=["metrics are the observable (as the statement says)"],
 )
 
